@@ -21,7 +21,7 @@ import numpy as np
 sys.path.insert(0, os.path.dirname(os.path.dirname(os.path.abspath(__file__))))
 import qoracle as Q  # noqa: E402
 from common import Corr, Broken, coq_eval_many, parse_evals, VERIF  # noqa: E402
-from translate import gates_tr, decompose_tr, devices_tr  # noqa: E402
+from translate import gates_tr, decompose_tr, devices_tr, spinchain_tr  # noqa: E402
 from props import c03 as C3  # noqa: E402  (canonicalisation helpers of the decomposition harness; its files are not modified)
 
 ID = "C13"
@@ -63,6 +63,7 @@ def generate(ctx):
     gates_tr.generate()
     _gen["decompose"] = decompose_tr.generate()
     _gen["devices"] = devices_tr.generate()
+    spinchain_tr.generate()          # Proofs/TranspileC06.v states the C06 well-formedness of the transpiled circuit
 
 
 # ------------------------------------------------------------------------------------------------
@@ -395,6 +396,13 @@ def correspond(ctx):
                 corr.oracle_fail(inp, obs, exp, what)
     corr.extra["translated"] = _gen.get("devices", {})
     return corr
+
+
+def obligations(ctx):
+    # generated boolean obligations behind the theorems: emitted-gate shape per (native configuration, gate kind) = 2 x 20,
+    # device table validity (4), parameter-free matrices of the six routed gate kinds (6), pulse-gate table of C06 (4),
+    # rules of all routed names (8)
+    return 40 + 4 + 6 + 4 + 8
 
 
 def classify(f):
